@@ -140,7 +140,10 @@ def run(repo, rep):
     ok = len(pb) == 1
     if ok:
         arg = [a for a in pb[0].value.args if not (isinstance(a, ast.Constant) and a.value == 0)]
-        ok = len(arg) == 1 and linear(arg[0]) == {"k_start": 1, "total_stride": 1, "k_dilated_height": 1, "ifm_shape.height * upscaling_factor": -1}
+        lf = linear(arg[0]) if len(arg) == 1 else {}
+        # the height is the IFM's or, with a fused slice, the slice window's: any `<shape>.height * upscaling_factor`
+        hk = [k for k in lf if re.fullmatch(r"\w+[.]height \* upscaling_factor|upscaling_factor \* \w+[.]height", str(k))]
+        ok = len(arg) == 1 and len(hk) == 1 and {("H*up" if k == hk[0] else k): v for k, v in lf.items()} == {"k_start": 1, "total_stride": 1, "k_dilated_height": 1, "H*up": -1}
     rep.check(ok, "C10-c", f"{HS}:Box.transform_with_strides_and_skirt", "pad_bottom = max(0, k_start + total_stride + k_dilated_height - ifm_height * upscaling)",
               norm(pb[0].value) if pb else "bottom padding is no longer derived from the position of the last kernel row")
     ts = [s for s in ast.walk(tf) if isinstance(s, ast.Assign) and norm(s.targets[0]) == "total_stride"]
@@ -218,6 +221,10 @@ def run(repo, rep):
         for st in ups:
             e2 = _Sub().visit(_copy.deepcopy(st.value))
             env[key] = val
+            for nm_ in ast.walk(e2):
+                # the clamp is against the height of the IFM or, with a fused slice, of the slice window
+                if isinstance(nm_, ast.Name) and re.fullmatch(r"S_\w+_height", nm_.id):
+                    env[nm_.id] = H
             val = _tf(e2, env, default=None)
             if not isinstance(val, int):
                 ok_eval = False
@@ -231,6 +238,7 @@ def run(repo, rep):
     rep.check(wrong is None, "C10-c", f"{HS}:Box.transform_with_strides_and_skirt", f"IFM end row under upscaling = (end * stride + skirt_bottom + skirt_bottom % upscale) // upscale, clamped to [1, height] ({npts} points)",
               (f"at end={wrong[0]}, stride={wrong[1]}, skirt_bottom={wrong[2]}, upscale={wrong[3]}, height={wrong[4]} the statements give {wrong[5]}, expected {wrong[6]}: "
                "every non-last stripe of an operator reading an upscaled IFM gets one IFM row too few") if wrong else "")
+    rule_slice_window(repo, rep)
     rep.floor("C10-c", 18)
 
     # ---------------------------------------------------------------- d
@@ -329,3 +337,79 @@ def run(repo, rep):
               "rolling-buffer storage starts from the tensor's storage shape (channels rounded to 16 for NHCWB16)", (str(norm(base[0].value)) if base else "") +
               ": the row stride of a brick-format rolling buffer drops the channel rounding, so the last brick of a row overlaps the next row")
     rep.floor("C10-g", 8)
+
+
+def rule_slice_window(repo, rep):
+    """(c) an operator that reads its IFM through a fused slice (read offset o, read shape n) sees the window [o, o + n) as its
+    whole input: along H and W the stripe's IFM box is max(s * stride - skirt_lo, 0) + o .. min(e * stride + skirt_hi, n) + o -
+    the offset is not scaled by the stride and the box never leaves the window. Decided by interpreting
+    Box.transform_with_strides_and_skirt on a grid of boxes, strides, skirts and windows (upscaling 1)."""
+    import itertools
+
+    from ..absint import AList, AObj, Interp, Unknown
+
+    hs = repo.mod("high_level_command_stream")
+
+    def npsub(i, a, k, n):
+        x, y = a
+        xs = x.items if isinstance(x, AList) else list(x)
+        ys = y.items if isinstance(y, AList) else list(y)
+        return AList([p_ - q_ for p_, q_ in zip(xs, ys)])
+
+    def mkbox(i, a, k, n):
+        return AObj("Box", {"start_coord": a[0], "end_coord": a[1]}, cls="Box")
+
+    def mkshape(i, a, k, n):
+        if len(a) != 4:
+            return Unknown("Shape4D")
+        return AObj("shape", {"batch": a[0], "height": a[1], "width": a[2], "depth": a[3]}, cls="Shape4D")
+
+    it = Interp(repo, hs, externs={"np.subtract": npsub, "numpy.subtract": npsub, "Box": mkbox, "Shape4D": mkshape})
+    site = f"{HS}:Box.transform_with_strides_and_skirt"
+    wrong = None
+    pts = 0
+    H = W = 20
+    for stride, (lo, hi), o, n_, s0, e in itertools.product((1, 2), ((0, 0), (1, 1)), (0, 4), (8,), (0, 1), (1, 2, 4)):
+        if e * stride > n_ + lo + hi or e <= s0:
+            continue
+
+        def mk(stride=stride, lo=lo, hi=hi, o=o, n_=n_, e=e, s0=s0):
+            box = AObj("box", {"start_coord": AList([0, s0, s0, 0]), "end_coord": AList([1, e, e, 16])}, cls="Box")
+
+            def shape(h, w):
+                return AObj("shape", {"height": h, "width": w, "depth": 16, "batch": 1}, cls="Shape4D")
+
+            ifm = shape(H, W)
+            kw = {"upscaling_factor": 1, "op_type": None}
+            if o or True:
+                kw["split_offset"] = AList([0, o, o, 0])
+                kw["split_shape"] = AList([1, n_, n_, 16])
+            return [box, AList([1, stride, stride, 1]), AList([lo, lo, hi, hi]), ifm, Unknown("blocktype"), AList([0, 0, 0, 0]), lo + hi + 1], kw
+
+        try:
+            ps = [p_ for p_ in it.run("Box.transform_with_strides_and_skirt", mk) if p_.kind == "return"]
+        except AnalysisError as ex:
+            raise AnalysisError(f"transform_with_strides_and_skirt not evaluable on the slice-window grid: {str(ex)[:120]}")
+        if not ps:
+            raise AnalysisError("transform_with_strides_and_skirt: no returning path on the slice-window grid")
+        for p_ in ps:
+            b = p_.value[0]
+            sc, ec = b.fields.get("start_coord"), b.fields.get("end_coord")
+            sc = sc.items if isinstance(sc, AList) else list(sc)
+            ec = ec.items if isinstance(ec, AList) else list(ec)
+            got = (sc[-3], ec[-3], sc[-2], ec[-2])
+            if not all(isinstance(x_, int) for x_ in got):
+                raise AnalysisError(f"transform_with_strides_and_skirt: symbolic coordinates {got}")
+            want_h = (max(s0 * stride - lo, 0) + o, max(min(e * stride + hi, n_), 1) + o)
+            want_w = (max(s0 * stride - lo, 0) + o, min(e * stride + hi, n_) + o)
+            kh = lo + hi + 1
+            want_pad = (max(0, lo - s0 * stride), max(0, s0 * stride - lo + stride * (e - s0 - 1) + kh - n_) if e * stride + hi > n_ else 0)
+            pads = tuple(p_.value[1:3])
+            if not all(isinstance(x_, int) for x_ in pads):
+                raise AnalysisError(f"transform_with_strides_and_skirt: symbolic padding {pads}")
+            pts += 1
+            if (got != want_h + want_w or pads != want_pad) and wrong is None:
+                wrong = (dict(stride=stride, skirt=(lo, hi), offset=o, window=n_, ofm_rows=(s0, e)), got + pads, want_h + want_w + want_pad)
+    rep.check(wrong is None, "C10-c", site, f"with a fused slice the IFM box is taken inside the window [offset, offset + shape): start = max(s*stride - skirt, 0) + offset, end = min(e*stride + skirt, shape) + offset ({pts} points)",
+              (f"at {wrong[0]}: rows/cols/padding (h0, h1, w0, w1, pad_top, pad_bottom) = {wrong[1]}, expected {wrong[2]}: the read offset is multiplied by the stride and / or the rows are clipped against the whole tensor instead of the "
+               "window (demonstrated: CONV 1x1 -> STRIDED_SLICE rows 4..12 -> CONV 3x3 stride 2: IFM rows 8..15 instead of 4..11)") if wrong else "")
